@@ -3789,7 +3789,22 @@ mod verif_seam {
         }
     }
 
+    struct EventRxHook(mpsc::Receiver<Event>);
+    impl pubapi::EventRxOps for EventRxHook {
+        fn drain(&mut self) -> Vec<String> {
+            let mut v = Vec::new();
+            while let Ok(e) = self.0.try_recv() {
+                v.push(format!("{e:?}"));
+            }
+            v
+        }
+    }
+
     impl Connection {
+        pub(crate) fn verif_orphan_limits() -> (usize, Duration) {
+            (OLD_ORPHAN_COUNT_THRESHOLD, OLD_AGE_ORPHAN_THRESHOLD)
+        }
+
         pub(crate) fn verif_new_map() -> Box<dyn pubapi::MapOps> {
             Box::new(MapHook(ResponseHandlerMap::new()))
         }
@@ -3816,13 +3831,22 @@ mod verif_seam {
                 keepalive_hint: Notify::new(),
             });
 
+            let (event_sender, events) = if cfg.event_channel_capacity > 0 {
+                let (tx, rx) = mpsc::channel::<Event>(cfg.event_channel_capacity);
+                (
+                    Some((tx, Vec::new())),
+                    Some(Box::new(EventRxHook(rx)) as Box<dyn pubapi::EventRxOps>),
+                )
+            } else {
+                (None, None)
+            };
             let config = HostConnectionConfig {
                 local_ip_address: None,
                 shard_aware_local_port_range: ShardAwarePortRange::EPHEMERAL_PORT_RANGE,
                 compression: None,
                 tcp_socket_options: TcpSocketOptions::default(),
                 timestamp_generator: None,
-                event_sender: None,
+                event_sender,
                 tls_config: None,
                 connect_timeout: std::time::Duration::from_secs(5),
                 default_consistency: Default::default(),
@@ -3862,6 +3886,7 @@ mod verif_seam {
                     prefilled,
                 }),
                 errors: Box::new(ErrorRxHook(Some(error_receiver))),
+                events,
             }
         }
     }
